@@ -105,7 +105,11 @@ CHECKS = {
              "links and calls that are left alone (plain names, no colon, not a parser function, not selected) comes back "
              "exactly as written, every call re-emitted with the same name and arguments (Proofs/IdentityProofs.v, any "
              "nesting); c13_template_fn_result_replaces_the_call (the string template_fn returns is the expansion of the call, "
-             "modulo the automatic line break and post_template_fn). PARTIAL: 'exactly once per call' and the argument map the "
+             "modulo the automatic line break and post_template_fn); c13_flat_pages_expand_exactly_the_selected_calls "
+             "(Proofs/FlatCallProofs.v): on C04's flat fragment, for every library, selection and page of text and calls, with "
+             "or without pre_expand, the model returns the page in which exactly the selected calls are replaced by the "
+             "transclusion rule's result and every other call stands as written - compared directly with Wtp.expand on "
+             "generated pages and selections. PARTIAL: 'exactly once per call' and the argument map the "
              "hooks receive, parser-function re-emission and template arguments/nowiki on the page are decided per run.",
         note=TRUST + "regex-based _encode/_finalize_expand glue under the diff; hooks are harness-supplied tables.",
         ref="DESIGN.md section 4 C13"),
